@@ -217,7 +217,8 @@ def dynamic_zero_scale_rules(chk, S):
             solves.append(getattr(y, "name", None) or repr(y))
     positive = all(iv.pos for iv in floors)
     tolerant = all("lstsq" in s_ or "pinv" in s_ for s_ in solves)
-    r4.require(positive or tolerant, "solver_dynamic.step vanishing local estimate", f"scale in {sorted({str(iv) for iv in floors})}, update solve {sorted(set(solves))} (all strategies)",
+    tag = "" if (positive or tolerant) else f" [scale in {', '.join(sorted({str(iv) for iv in floors}))}; update solve {', '.join(sorted(set(solves)))}]"
+    r4.require(positive or tolerant, "solver_dynamic.step vanishing local estimate" + tag, f"scale in {sorted({str(iv) for iv in floors})}, update solve {sorted(set(solves))} (all strategies)",
                f"the local estimate (>= 0, exactly 0 for a vanishing residual) is handed to prior.transition unchanged (interval {sorted({str(iv) for iv in floors})}) and the update solves with {sorted(set(solves))}: "
                "with an exact initial condition the predicted covariance and the observed factor are exactly zero and the triangular solve divides 0 by 0 -- means and covariances become NaN "
                "instead of 'unit-scale covariances times zero'", site or SOLVERS)
